@@ -194,6 +194,16 @@ func admitRule(s ref.Suite, in ref.Input) string {
 
 func admissionSuites() []ref.Suite {
 	var out []ref.Suite
+	defer func() {
+		// every third class also with an advertised suite string as its Raw text
+		regs := liveNames()
+		n0 := len(out)
+		for i := 0; i < n0 && len(regs) > 0; i += 3 {
+			x := out[i]
+			x.Raw = regs[i%len(regs)]
+			out = append(out, x)
+		}
+	}()
 	for sub := 0; sub < 32; sub++ {
 		s := ref.Suite{Raw: "OCRA-1:x", Hash: sub % 3, Digits: 4 + sub%7, C: sub&1 != 0, Q: sub&2 != 0, P: sub&4 != 0, S: sub&8 != 0, T: sub&16 != 0}
 		if s.T {
@@ -296,6 +306,17 @@ func init() {
 							}
 						}
 					}
+				}
+			}
+			// the suite text is arbitrary: repeat a slice of the grid with advertised names as Raw (a configuration
+			// must be judged by its own fields, not by what a registry says about its text)
+			regs := liveNames()
+			if len(regs) > 0 {
+				n0 := len(us)
+				for i := 0; i < n0; i += 7 {
+					x := us[i]
+					x.Suite.Raw = regs[(i/7)%len(regs)]
+					us = append(us, x)
 				}
 			}
 			c.R.Extra["usability_grid_configurations"] = len(us)
